@@ -749,6 +749,43 @@ theorem listenEnd_keeps_other_listens (cap : Kind → Cap) (s : Server) (hr : Re
       · exact Or.inl e
   exact ⟨hmem, served_of_listen (reach_inv (Reach.step (.listenEnd sid id) hr)).2 hmem⟩
 
+/-- **listenEnd_touches_own_entries_only.**  The clean-up of a stream that ends decides by the id the entry
+carries AT THE TIME IT RUNS: whatever happened between the cancellation and the clean-up (the application's
+`UnsubscribeHandler` is called in between, outside the lock: another stream of the session may have taken
+the URI or the kind over), an entry of a resource-subscription or list-changed table that does not carry
+the id of the stream that ends is still there afterwards, unchanged.  (A clean-up that reads the owner
+before it calls the application and deletes afterwards without reading again — seeded C18-m13 — breaks
+exactly this; the harness's `park` window shows it.) -/
+theorem listenEnd_touches_own_entries_only (s : Server) (sid id : Nat) :
+    (∀ r ∈ s.rsubs, ¬(r.2.1 = sid ∧ r.2.2 = id) → r ∈ (listenEnd s sid id).rsubs) ∧
+    (∀ (t : Kind), ∀ p ∈ (s.ks t).subs, ¬(p.1 = sid ∧ p.2 = id) → p ∈ ((listenEnd s sid id).ks t).subs) := by
+  refine ⟨?_, ?_⟩
+  · intro r hr hne
+    simp only [listenEnd]
+    split
+    · exact hr
+    · simp only [List.mem_filterMap]
+      refine ⟨r, hr, ?_⟩
+      have : ¬((r.2.1 == sid && r.2.2 == id) = true) := by
+        simpa using fun a b => hne ⟨a, b⟩
+      simp_all
+  · intro t p hp hne
+    simp only [listenEnd]
+    split
+    · exact hp
+    · simp only [List.mem_filterMap]
+      refine ⟨p, hp, ?_⟩
+      have : ¬((p.1 == sid && p.2 == id) = true) := by
+        simpa using fun a b => hne ⟨a, b⟩
+      simp_all
+
+/-- The situation of the `park` window is reachable and the theorem is not vacuous: a session subscribes a URI
+on stream 3, subscribes it again on stream 4 (the entry is 4's), stream 3 ends: the session is still
+subscribed, under 4's id. -/
+example :
+    let s := (run (init (fun _ => .on)) [.bind 1, .hello 1 true, .listen 1 3 [] [7], .listen 1 4 [] [7], .listenEnd 1 3]).1
+    (7, 1, 4) ∈ s.rsubs := by decide
+
 /-- Meaning of the record `listens`, part 1: the registration section of a handler records the stream
 with what it was granted. -/
 theorem listen_recorded (s : Server) (sid id : Nat) (kinds : List Kind) (uris : List Nat)
